@@ -196,7 +196,7 @@ def _length_shortcuts(q, info):
 
 def run(ctx, oracle, rule):
     if ctx.tier == "quick":
-        plan = [(["T:3"], [2, 2]), (["Td:3", "Tf:3", "Ts:2", "Tt:3", "Tg:3"], [2])]
+        plan = [(["T:3"], [2, 2]), (["Td:3", "Tf:3", "Ts:2", "Tt:3", "Tg:3"], [2])] + explore.extra_stages("full")
     else:
         plan = [(["T:3"], [2, 2]), (["Td:3", "Tf:3", "Ts:2", "Tt:3", "Tg:3", "T:m0,5,5,9", "T:u4"], [2, 2]), (["T:3"], [1, 1, 1])]
     ctx.rule = rule
